@@ -164,10 +164,22 @@ def add_pkey_move(rng, case):
     case["h2"], h3 = h2[:cut], (h2[cut:] or [h2[-1]])
     for cdm in (case["cdmA"], case["cdmB"]):
         cdm["L" + t0["name"]]["attrsmapping"]["l_alt"] = "alt"
+    if rng.random() < 0.6:
+        # directed: the second phase maps one more attribute of that very type, so the client
+        # generates purely local 'modified' events for its objects; exactly those handler calls
+        # fail until the last phase, so the entries (remote event = None) are still queued when
+        # the key moves; nothing else fails
+        am_b = case["cdmB"]["L" + t0["name"]]["attrsmapping"]
+        am_a = case["cdmA"]["L" + t0["name"]]["attrsmapping"]
+        shared = sorted(k for k in am_b if k in am_a and k != "l_alt")
+        if shared:
+            la = rng.choice(shared)
+            del am_a[la]
+            case["fail_local"] = ["on_L" + t0["name"] + "_modified", la]
     case["phase3"] = {"cfg": cfgC, "cdm": copy.deepcopy(case["cdmB"]), "polls": h3}
     t0["attrs"] = t0["attrs"] + ["alt"]          # the universe knows the attribute too (Gallina rendering)
     case["edits"] = list(case["edits"]) + [("move_pkey", t0["name"])]
-    case["p_fail"] = rng.choice([0.0, 0.3, 0.5])
+    case["p_fail"] = 0.0 if case.get("fail_local") else rng.choice([0.0, 0.3, 0.5])
     return case
 
 
@@ -175,10 +187,12 @@ def run_client_life(wd, cdm, cworld, limit, nloops, day):
     import clidrv
     conf = clidrv.client_config(wd, cdm, trashbin_retention=0, foreignkeys_policy="on_remove_event",
                                 autoremediation="disabled")
-    cl = clidrv.start_client(wd, conf, cworld)
+    cl = clidrv.start_client(wd, conf, cworld, logsink=cworld.get("logsink"))
 
     def before(i, it):
         cworld["limit"] = limit
+        if cworld.get("iter_hook"):
+            cworld["iter_hook"](i)
     clidrv.run_segment(cl, [{"now": EPOCH + datetime.timedelta(days=day)}] * nloops, before, lambda i, it: False)
     snap = clicase.snapshot(cl)
     try:
@@ -222,8 +236,12 @@ def run_case(case, wd):
     faults = {"on": True}
 
     def failfn(n, call, cl):
+        fl = case.get("fail_local")
+        if fl and (faults["on"] or faults.get("local")) and call["h"] == fl[0] and isinstance(call.get("attrs"), dict) \
+                and set(call["attrs"].get("added", {})) == {fl[1]} and not call["attrs"].get("modified") and not call["attrs"].get("removed"):
+            return True
         return True if (faults["on"] and rng.random() < case["p_fail"]) else None
-    cworld = {"bus": [], "next": 1, "calls": [], "ncall": 0, "failfn": failfn}
+    cworld = {"bus": [], "next": 1, "calls": [], "ncall": 0, "failfn": failfn, "logsink": [] if os.environ.get("EVO_LOG") else None}
     snaps, marks = [], []
     for pi, (cfg, cdm, polls) in enumerate(phases):
         server_run(wd + "/srv", cfg, polls, world, pi == 0)
@@ -232,6 +250,9 @@ def run_case(case, wd):
         cworld["next"] = len(world["bus"]) + 1
         last = pi == len(phases) - 1
         faults["on"] = not last
+        # the purely local entries keep failing during the first loop iteration of the last phase:
+        # they are still queued when the dataschema event (key move) is consumed
+        cworld["iter_hook"] = (lambda i: faults.__setitem__("local", i == 0)) if last else (lambda i: faults.__setitem__("local", False))
         snaps.append(run_client_life(wd + "/cli", cdm, cworld, len(world["bus"]), 8 if last else 3, pi))
     n1 = marks[0]
     snapA, snapB = snaps[0], snaps[-1]
@@ -245,6 +266,10 @@ def run_case(case, wd):
     H.rmtree(wd)
     from lib.datamodel.serialization import JSONSerializable
     parse = lambda w: [json.loads(json.dumps(e), object_hook=JSONSerializable._json_parser) for e in w["bus"]]
+    if cworld.get("logsink"):
+        for lvl, msg in cworld["logsink"]:
+            if lvl in ("WARNING", "ERROR", "CRITICAL") or "atamodel" in msg:
+                print("   LOG", lvl, msg[:300])
     return {"bus": parse(world), "n1": n1, "snapA": snapA, "snapB": snapB, "fresh": fsnap, "snaps": snaps, "marks": marks,
             "evolved_calls": evolved_calls, "fresh_calls": list(fcw["calls"]), "fbus": parse(fworld)}
 
